@@ -36,6 +36,12 @@ pub uninterp spec fn fmt_msg1(f: Seq<char>, k: Seq<char>) -> Seq<char>;
 /// ... and "e is `format!(F, K, <the Display text of some error>)`" (two arguments)
 pub uninterp spec fn names_field(e: Seq<char>, f: Seq<char>, k: Seq<char>) -> bool;
 
+/// "the message names the field": it is some format string applied to the field's name first (the wording is not part of
+/// the property; that the format string shows its first argument is outside the model - the stand-in checks the text)
+pub open spec fn msg_names(e: Seq<char>, k: Seq<char>) -> bool {
+    exists|f: Seq<char>| #![trigger fmt_msg1(f, k)] #![trigger names_field(e, f, k)] e == fmt_msg1(f, k) || names_field(e, f, k)
+}
+
 /// `O.ok_or_else(|| format!(F, K))`
 #[verifier::external_body]
 pub fn vx_ok_or_fmt<T>(o: Option<T>, f: &str, k: &str) -> (r: Result<T, String>)
